@@ -169,13 +169,18 @@ IBinS(op, i, c) ==
      IN /\ heap' = WriteU(heap, x, Z) /\ objs' = objs
         /\ hist' = Append(hist, [a |-> "ibins", op |-> op, i |-> i, c |-> c])
 \* x ** n, python int exponent (negative allowed)
+\* (TLC integers are 32 bit: the fourth power is taken of small values only, and nothing is raised to a power again after it)
+SmallObj(h, o, M) == \A k \in 1..Len(o.cells) : RSmall(h[o.buf][o.cells[k]], M)
 PowI(i, n) ==
   /\ "powi" \in Acts /\ CanGrow /\ i \in Us /\ (n < 0 => DivOK(heap, objs[i]))
+  /\ (n = 4 => (SmallObj(heap, objs[i], 6) /\ Len(hist) = MaxLen - 1))      \* (x**4 only as the last step of a behaviour)
+  /\ (n \in {2, 3, -2} => SmallObj(heap, objs[i], 130))
   /\ LET x == objs[i]
          Z == TLCEval([p \in 0..(Pg - 1) |-> [e \in 0..(NE(x) - 1) |-> SPowInt(Ser(heap, x, p, e), n)]])
      IN NewObj(FreshU(heap, ES(x), Z), [a |-> "powi", i |-> i, n |-> n])
 Unary(f, i) ==
   /\ "unary" \in Acts /\ CanGrow /\ i \in Us /\ (f = "reciprocal" => DivOK(heap, objs[i]))
+  /\ (f = "square" => SmallObj(heap, objs[i], 130))
   /\ LET x == objs[i]
          Z == TLCEval([p \in 0..(Pg - 1) |-> [e \in 0..(NE(x) - 1) |->
                  LET s == Ser(heap, x, p, e) IN
